@@ -29,6 +29,9 @@ def canon(v):
         return v
     if isinstance(v, vec.PersistentVector):
         return ["vec"] + [canon(x) for x in v]
+    if isinstance(v, (list, tuple)):
+        # a `#py [...]` / `#py (...)` literal: compared as the sequence of its elements
+        return ["vec"] + [canon(x) for x in v]
     if isinstance(v, runtime.Var):
         name = v.name.name if hasattr(v.name, "name") else str(v.name)
         from harness.props.c01_full import GLOBALS
